@@ -38,6 +38,7 @@ def run(ck: Check) -> None:
     d3(ck)
     from . import c03
     c03.g_level(ck, "D5")  # the target-directed expansion may leave a node unexpanded only if disjoint / strictly inside
+    c03.wrappers(ck, "D5", only=("expand_to_target",))  # ... and the public method really runs it
     ck.floor("D5", 3)
     ck.floor("D1", 2)
     ck.floor("D2", 2)
